@@ -254,7 +254,8 @@ Inductive action :=
   | AIfExec (neg : bool) (prog : name) (a : action).  (* [exec:prog] a   /   [!exec:prog] a *)
 
 Record script := {
-  archive : list (path * bytes);     (* the files of the txtar archive, in order *)
+  archive : list (path * bytes);     (* the files of the txtar archive, in order; names relative to $WORK *)
+  work_named : list path;            (* those of them whose entry name is written $WORK/... in the archive *)
   setup_adds : env;                  (* variables Params.Setup appends *)
   setup_defers : list (nat * bool);  (* Env.Defer calls made by Params.Setup, in order *)
   setup_err : bool;                  (* Params.Setup returns an error *)
@@ -278,7 +279,7 @@ Inductive phase :=
   | Done (v : verdict).
 
 Inductive event :=
-  | EvSetup (e : env) (t : tree)
+  | EvSetup (e : env) (t : tree) (outside : list path)  (* outside: files unpacked outside $WORK *)
   | EvProbe (cwd : path) (e : env) (t : tree)
   | EvCond (prog : name) (ans : bool)
   | EvDeferReg (id : nat)
@@ -320,6 +321,8 @@ Fixpoint cache_get (c : cache) (k : ckey) : option bool :=
 Record config := {
   retain : bool;        (* TestWork, -testwork or WorkdirRoot *)
   key_by_path : bool;   (* execCache keyed by PATH value and program (true) or by program only *)
+  names_see_env : bool; (* archive entry names are expanded with the initial environment (true) or with
+                           an empty one, as before the repair: $WORK/x is then the absolute path /x *)
   has_cancel : bool;    (* Params.Deadline set: cancel is not nil *)
   is_root : bool;       (* the test process ignores permission bits *)
   hostenv : host;
@@ -449,6 +452,17 @@ Fixpoint exec_action (cfg : config) (s : nat) (c : cache) (ss : sstate) (a : act
 
 Definition any_bad (d : list (nat * bool)) : bool := existsb snd d.
 
+(* setup() expands every entry name (ts.expand) and makes it absolute below the work directory
+   (ts.MkAbs).  A name written $WORK/p is the file p of the work directory when $WORK is defined at
+   that point; when the environment is still empty it is /p, outside the work directory. *)
+Definition is_work_named (p : script) (q : path) : bool := existsb (path_eqb q) (work_named p).
+Definition effective_files (cfg : config) (p : script) : list (path * bytes) :=
+  if names_see_env cfg then archive p
+  else filter (fun f => negb (is_work_named p (fst f))) (archive p).
+Definition escapes_of (cfg : config) (p : script) : list path :=
+  if names_see_env cfg then []
+  else map fst (filter (fun f => is_work_named p (fst f)) (archive p)).
+
 (* what a step asks of the shared state beyond the cache *)
 Inductive effect := NoEffect | Finished.
 
@@ -458,14 +472,14 @@ Definition sstep (cfg : config) (p : script) (s : nat) (c : cache) (ss : sstate)
   | NotStarted =>
       let e := initial_env (hostenv cfg) s (setup_adds p) in
       let regs := map (fun d => EvDeferReg (fst d)) (setup_defers p) in
-      match setup_tree (is_root cfg) (archive p) with
+      match setup_tree (is_root cfg) (effective_files cfg p) with
       | None =>
           (* unpacking failed: Setup is not reached *)
           (c, {| ph := Ending VSetupFail SDefers; cwd := []; senv := []; tr := tmp_tree; wpresent := true;
                  dstack := []; bgl := []; obs := [] |}, NoEffect)
       | Some t =>
           let ss1 := {| ph := Running 0; cwd := []; senv := e; tr := t; wpresent := true;
-                        dstack := rev (setup_defers p); bgl := []; obs := regs ++ [EvSetup e t] |} in
+                        dstack := rev (setup_defers p); bgl := []; obs := regs ++ [EvSetup e t (escapes_of cfg p)] |} in
           if setup_err p then (c, set_ph ss1 (Ending VSetupFail SDefers), NoEffect)
           else (c, ss1, NoEffect)
       end
